@@ -214,11 +214,12 @@ def translate():
             key = rel.split("anyio/", 1)[1]
             import guard
             want = {c for (r, c, *_rest) in list(ROWS.values()) + list(DELEGATIONS.values()) if r == rel and c}
-            have = [c for c in sorted(want) if c in guard.TABLE.get(key, {})]
-            try:
-                guard.check(key, cache[rel], have)
-            except guard.GuardError as e:
-                raise Refuse(str(e))
+            if key in guard.TABLE:
+                have = [c for c in sorted(want) if c in guard.TABLE[key]["classes"]]
+                try:
+                    guard.check(key, cache[rel], have)
+                except guard.GuardError as e:
+                    raise Refuse(str(e))
         return cache[rel]
 
     for row, (rel, cls, fn, sel, deleg) in sorted(ROWS.items()):
